@@ -12,7 +12,7 @@ Definition modelled_types : list Z :=
   [ST_SystemInfoStream; ST_ThreadListStream; ST_ModuleListStream; ST_MemoryListStream; ST_Memory64ListStream;
    ST_ExceptionStream; ST_ThreadNamesStream; ST_UnloadedModuleListStream; ST_MemoryInfoListStream; ST_MiscInfoStream;
    ST_BreakpadInfoStream; ST_AssertionInfoStream; ST_ThreadInfoListStream; ST_LinuxCpuInfo; ST_LinuxProcStatus;
-   ST_LinuxLsbRelease; ST_LinuxEnviron; ST_LinuxMaps; ST_MozLinuxLimits].
+   ST_LinuxLsbRelease; ST_LinuxEnviron; ST_LinuxMaps; ST_MozLinuxLimits; ST_HandleDataStream].
 Definition zmem (x : Z) (l : list Z) : bool := existsb (Z.eqb x) l.
 Definition present_types (e : endian) (m : model) : list Z := map fst (filter present (table e m)).
 Definition u32_entry (d : Z * (Z * Z)) : bool := u32b (fst d) && u32b (fst (snd d)) && u32b (snd (snd d)).
@@ -36,6 +36,7 @@ Definition wf_model (e : endian) (m : model) : bool :=
   && oall (wf_flat L_MINIDUMP_BREAKPAD_INFO) (m_breakpad m)
   && oall (wf_flat L_MINIDUMP_ASSERTION_INFO) (m_assertion m)
   && oall (forallb (wf_flat L_MINIDUMP_THREAD_INFO)) (m_thread_info m)
+  && oall wf_handles (m_handles m)
   && (zlen (encode_dump e m) <=? U32M).
 
 (* ------------------------------------------------------------------ directory *)
@@ -167,7 +168,7 @@ Proof.
                         ST_Memory64ListStream, ST_ExceptionStream, ST_ThreadNamesStream, ST_UnloadedModuleListStream,
                         ST_MemoryInfoListStream, ST_MiscInfoStream, ST_BreakpadInfoStream, ST_AssertionInfoStream,
                         ST_ThreadInfoListStream, ST_LinuxCpuInfo, ST_LinuxProcStatus, ST_LinuxLsbRelease, ST_LinuxEnviron,
-                        ST_LinuxMaps, ST_MozLinuxLimits; intuition lia|]).
+                        ST_LinuxMaps, ST_MozLinuxLimits, ST_HandleDataStream; intuition lia|]).
   constructor.
 Qed.
 
@@ -269,7 +270,7 @@ Lemma table_sane : forall ty b, In (ty, Some b) t ->
 Proof.
   intros ty b Hin pre post Hpre Hb. split; [|reflexivity].
   unfold t, table in Hin. cbn [In] in Hin.
-  destruct Hin as [Heq|[Heq|[Heq|[Heq|[Heq|[Heq|[Heq|[Heq|[Heq|[Heq|[Heq|[Heq|[Heq|[Heq|[Heq|[Heq|[Heq|[Heq|[Heq|[]]]]]]]]]]]]]]]]]]]]; sane_case.
+  destruct Hin as [Heq|[Heq|[Heq|[Heq|[Heq|[Heq|[Heq|[Heq|[Heq|[Heq|[Heq|[Heq|[Heq|[Heq|[Heq|[Heq|[Heq|[Heq|[Heq|[Heq|[]]]]]]]]]]]]]]]]]]]]]; sane_case.
   - apply (sysinfo_roundtrip e a pre post); assumption.
   - apply (list_roundtrip thread_codec e wf_thread (thread_ok e) (m_pad_lists m) a pre post); assumption.
   - apply (list_roundtrip module_codec e (wf_module e) (module_ok e) (m_pad_lists m) a pre post); assumption.
@@ -289,6 +290,7 @@ Proof.
   - apply (raw_roundtrip e a pre post); [reflexivity|assumption..].
   - apply (raw_roundtrip e a pre post); [reflexivity|assumption..].
   - apply (raw_roundtrip e a pre post); [reflexivity|assumption..].
+  - apply (handles_roundtrip e a pre post); assumption.
 Qed.
 
 Lemma dir_u32 : forallb u32_entry dir = true.
@@ -412,7 +414,8 @@ Lemma dview_ext : forall a b : dview,
   v_lx_lsb a = v_lx_lsb b ->
   v_lx_environ a = v_lx_environ b ->
   v_lx_maps a = v_lx_maps b ->
-  v_lx_limits a = v_lx_limits b -> a = b.
+  v_lx_limits a = v_lx_limits b ->
+  v_handles a = v_handles b -> a = b.
 Proof. intros [] []; cbn; intros; subst; reflexivity. Qed.
 
 Theorem dump_roundtrip : forall e m, wf_model e m = true ->
@@ -429,7 +432,7 @@ Proof.
       match goal with |- _ <= 32 + zlen ?x => pose proof (zlen_nonneg _ x) end.
       assert (HEADER_SIZE = 32) by reflexivity. lia. }
   rewrite (dir_ok e m Hwf). cbn [obnd]. unfold view_of. apply f_equal. apply dview_ext;
-    cbn [v_endian v_version v_checksum v_time v_flags v_sysinfo v_threads v_modules v_memory v_memory64 v_exception v_tnames v_unloaded v_meminfo v_misc v_breakpad v_assertion v_thread_info v_lx_cpuinfo v_lx_status v_lx_lsb v_lx_environ v_lx_maps v_lx_limits]; try reflexivity.
+    cbn [v_endian v_version v_checksum v_time v_flags v_sysinfo v_threads v_modules v_memory v_memory64 v_exception v_tnames v_unloaded v_meminfo v_misc v_breakpad v_assertion v_thread_info v_lx_cpuinfo v_lx_status v_lx_lsb v_lx_environ v_lx_maps v_lx_limits v_handles]; try reflexivity.
   - destruct (m_sysinfo m) as [a|] eqn:E; cbn [sres_of].
     + apply (stream_present e m Hwf _ (enc_sysinfo e) dec_sysinfo wf_sysinfo a); [apply sysinfo_roundtrip|wf_piece Hwf E|in_table E].
     + apply (stream_absent e m Hwf). in_table_none E.
@@ -499,5 +502,8 @@ Proof.
     + apply (stream_absent e m Hwf). in_table_none E.
   - destruct (m_lx_limits m) as [a|] eqn:E; cbn [sres_of].
     + apply (stream_present e m Hwf _ (enc_raw e) dec_raw (fun _ => true) a); [apply raw_roundtrip|reflexivity|in_table E].
+    + apply (stream_absent e m Hwf). in_table_none E.
+  - destruct (m_handles m) as [a|] eqn:E; cbn [sres_of].
+    + apply (stream_present e m Hwf _ (enc_handles e) dec_handles wf_handles a); [apply handles_roundtrip|wf_piece Hwf E|in_table E].
     + apply (stream_absent e m Hwf). in_table_none E.
 Qed.
